@@ -317,7 +317,8 @@ class DilationWorld:
             r = self._guard("dataReceived", deliver, link, ev[2], ev[3])
             if isinstance(r, Exception):
                 # Twisted: an exception out of dataReceived loses the connection
-                self.__dict__.setdefault("rx_raised", []).append((link.idx, ev[2], link.broken, type(r).__name__, str(r)[:80]))
+                in_use = any(s.manager._connection is not None and s.manager._connection.transport.link is link for s in self.sides)
+                self.__dict__.setdefault("rx_raised", []).append((link.idx, ev[2], link.broken, type(r).__name__, str(r)[:80], in_use))
                 close_end(link, ev[2], error.ConnectionLost())
         elif k == "conn_ok":
             c = self.net.attempts[ev[1]]
